@@ -52,10 +52,11 @@ structure Spec where
   expect : Expect
   notified : List Dev     -- reported by the last poll, not yet drained
   lastTs : Nat            -- clock reading of the previous answer
+  tabletCleared : Bool    -- the repeat timer was last stopped by a tablet-mode change (C12: "as from a fresh start")
   viol : List String
 deriving Repr, Inhabited
 
-def Spec.init : Spec := ⟨State.init, [], false, none, Expect.any, [], 0, []⟩
+def Spec.init : Spec := ⟨State.init, [], false, none, Expect.any, [], 0, false, []⟩
 
 def Spec.flag (x : Spec) (tag : String) : Spec :=
   if x.viol.contains tag then x else { x with viol := x.viol ++ [tag] }
@@ -77,7 +78,9 @@ def checkCall (tol : Nat) (x : Spec) (c : VCall) : Spec :=
     | Expect.sendExactly prop evs, VCall.send evs' =>
       if evs == evs' then x else x.flag (prop ++ "/wrong-send-payload")
     | Expect.sendExactly prop _, _ => x.flag (prop ++ "/missing-send")
-    | Expect.noSend prop, VCall.send _ => x.flag (if x.inTablet then "C12/send-in-tablet-mode" else prop ++ "/unexpected-send")
+    | Expect.noSend prop, VCall.send _ =>
+      let x := x.flag (if x.inTablet then "C12/send-in-tablet-mode" else prop ++ "/unexpected-send")
+      if x.tabletCleared && prop == "C11" then x.flag "C12/repeat-chord-after-tablet-change" else x
     | Expect.any, VCall.send _ => x.flag "C10/unexpected-send"
     | _, _ => x
   match c with
@@ -85,7 +88,9 @@ def checkCall (tol : Nat) (x : Spec) (c : VCall) : Spec :=
     let x := if x.notified.isEmpty then x else x.flag "C10/poll-with-undrained-device"
     (match x.armed, t with
      | none, none => x
-     | none, some _ => x.flag "C11/timeout-without-repeat-request"
+     | none, some _ =>
+       (x.flag "C11/timeout-without-repeat-request").flag
+         (if x.tabletCleared then "C12/repeat-timer-survived-tablet-change" else "C11/timeout-without-repeat-request")
      | some _, none => x.flag "C11/no-timeout-while-repeat-pending"
      | some a, some t => if timeoutOk tol (dueTimeout a.deadline x.lastTs) t then x else x.flag "C11/wrong-timeout")
   | VCall.send evs =>
@@ -125,6 +130,9 @@ def applyResp (L : Layout) (x : Spec) (c : VCall) (r : Resp) (ts : Nat) : Spec :
       let out := step L x.s ev
       let x := { x with s := out.1 }
       let x := match out.2.rep with
+        | RRepeat.noChange => x
+        | _ => { x with tabletCleared := false }
+      let x := match out.2.rep with
         | RRepeat.repeating keys d i => { x with armed := some ⟨keys, i, 0⟩ }    -- deadline fixed below
         | RRepeat.disabled => { x with armed := none }
         | RRepeat.noChange => x
@@ -140,7 +148,7 @@ def applyResp (L : Layout) (x : Spec) (c : VCall) (r : Resp) (ts : Nat) : Spec :
   | VCall.nt, Resp.tab Next.end_ => { x with expect := Expect.nothing }
   | VCall.nt, Resp.tab (Next.one tev) =>
     let out := releaseAll L x.s
-    let x := { x with s := out.1, armed := none,
+    let x := { x with s := out.1, armed := none, tabletCleared := true,
                       inTablet := (match tev with | TabletEv.on => true | TabletEv.off => false) }
     if out.2.isEmpty then { x with expect := Expect.noSend "C12" }
     else { x with expect := Expect.sendExactly "C12" out.2 }
